@@ -164,6 +164,10 @@ pub struct ApiResult {
     pub locks_before_panic: usize,
     pub unchanged: bool,
     pub control_ok: bool,
+    /// keys / values created during the call's scenario and not destroyed once every collection
+    /// is dropped (the foreign collector still alive); destroyed more than once
+    pub undropped_after_teardown: usize,
+    pub overdropped: usize,
 }
 
 pub fn run(json_rows: &[(String, String)]) -> (Vec<ApiResult>, Vec<String>) {
@@ -172,6 +176,7 @@ pub fn run(json_rows: &[(String, String)]) -> (Vec<ApiResult>, Vec<String>) {
     for populated in [0u8, 1, 2] {
         for (name, f) in &all {
             // foreign guard
+            ledger_reset();
             let c = ctx(populated);
             let before = shape(&c);
             let evil = seize::Collector::new();
@@ -184,8 +189,15 @@ pub fn run(json_rows: &[(String, String)]) -> (Vec<ApiResult>, Vec<String>) {
             let ega = &eg as *const Guard<'_> as usize;
             let foreign_uses = log.ops.iter().filter(|o| o.guard == ega).count()
                 + log.retires.iter().filter(|r| r.1 == ega).count();
-            drop(eg);
             let after = shape(&c);
+            // teardown of every collection while the foreign collector and its guard still live:
+            // every key and value ever created must have been destroyed by then, exactly once
+            drop(c);
+            let led = ledger_take();
+            let undropped = led.objs.iter().filter(|o| o.2 == 1 && o.3 == 0).count();
+            let overdropped = led.objs.iter().filter(|o| o.3 > 1).count();
+            drop(eg);
+            drop(evil);
             // control: a guard of the right collector (of whichever collection the position belongs to)
             let c2 = ctx(populated);
             let own: Guard<'_> = if name.ends_with("#1") || *name == "HashMap::eq_ref" {
@@ -211,6 +223,8 @@ pub fn run(json_rows: &[(String, String)]) -> (Vec<ApiResult>, Vec<String>) {
                 locks_before_panic: log.locks.len(),
                 unchanged: before == after,
                 control_ok: ctrl.is_ok(),
+                undropped_after_teardown: undropped,
+                overdropped,
             });
         }
     }
